@@ -663,11 +663,18 @@ class BzrBranch(Branch, _RelockDebugMixin):
                     tags_to_fetch = set(self.tags.get_reverse_tag_dict())
                 except errors.TagsNotSupported:
                     tags_to_fetch = set()
+                # The repository may hold revisions that are not ancestors of
+                # the tip (an abandoned tip, revisions that were only fetched,
+                # the tips of other branches sharing it): until now they were
+                # complete through the fallback, so their ancestry has to come
+                # along as well or they become unreadable.
+                also_present = set(self.repository.all_revision_ids())
+                also_present.discard(self.last_revision())
                 fetch_spec = NotInOtherForRevs(
                     self.repository,
                     old_repository,
                     required_ids=[self.last_revision()],
-                    if_present_ids=tags_to_fetch,
+                    if_present_ids=tags_to_fetch.union(also_present),
                     find_ghosts=True,
                 ).execute()
                 self.repository.fetch(old_repository, fetch_spec=fetch_spec)
